@@ -104,6 +104,8 @@ structure Meas where
   avail  : List Feat               -- `ds.features` (innate and computable)
   col    : Feat → List Rat         -- event data (tokens / exact values)
   logs   : List (String × List String)
+  tables : List (String × List String) := []   -- `ds.tables`: name, row tokens
+  cfg    : List (String × String) := []        -- every other metadata key with its value
 
 /-- acquisition time stamp in seconds (`time.mktime(...) + fraction`, no DST jump assumed) -/
 def Meas.ts (m : Meas) : Rat := (m.day : Rat) * 86400 + m.sec
@@ -201,12 +203,41 @@ def joinLogsFrom : Nat → List Meas → List (String × List String)
   | _, [] => []
   | i, m :: r => prefixedLogs i m ++ joinLogsFrom (i + 1) r
 
+/-- a measurement seen through its tables (so that everything proved about the prefixed logs
+applies to the prefixed tables) -/
+def Meas.asTables (m : Meas) : Meas := { m with logs := m.tables }
+
+/-- tables: source #1 through `export.hdf5(tables=True, meta_prefix="src-#1_")`, the others through
+`hw.store_table(name=meta_prefix + tab, …)` -/
+def joinTablesFrom (i : Nat) (ms : List Meas) : List (String × List String) :=
+  joinLogsFrom i (ms.map Meas.asTables)
+
+/-- `index_online` of one more input: `dsi["index_online"] + (last value written so far + 1)`
+(0 when nothing has been written yet) — observation O4 -/
+def rebaseBase (acc : List Rat) : Rat := match acc.getLast? with | some l => l + 1 | none => 0
+
+def rebaseStep (acc c : List Rat) : List Rat := acc ++ c.map (· + rebaseBase acc)
+
+def rebaseAll (first : List Rat) (blocks : List (List Rat)) : List Rat :=
+  blocks.foldl rebaseStep first
+
+/-- total number of events of the inputs -/
+def totalEvents (ms : List Meas) : Nat := (ms.map (fun m => (m.col .index).length)).sum
+
 structure Joined where
   order   : List Nat                      -- tags of the inputs in processing order
   offsets : List Rat
   feats   : List Feat
   col     : Feat → List Rat
   logs    : List (String × List String)   -- source logs (cfg/command logs are not modelled)
+  tables  : List (String × List String) := []
+  /-- metadata: the export of the first input copies its configuration, then
+  `hw.store_metadata({"experiment": {"run index": 1}})`; the writer keeps `event count` current -/
+  cfg     : List (String × String) := []
+  day     : Int := 0                      -- `experiment:date`
+  sec     : Rat := 0                      -- `experiment:time`
+  run     : Nat := 1                      -- `experiment:run index`
+  count   : Nat := 0                      -- `experiment:event count`
 
 /-- `join` on inputs that are already in processing order -/
 def joinSorted : List Meas → Option Joined
@@ -217,21 +248,50 @@ def joinSorted : List Meas → Option Joined
            offsets := offsets (m0 :: rest)
            feats := feats
            col := rest.foldl (appendMeas feats m0.ts) (firstCols feats m0)
-           logs := joinLogsFrom 1 (m0 :: rest) }
+           logs := joinLogsFrom 1 (m0 :: rest)
+           tables := joinTablesFrom 1 (m0 :: rest)
+           cfg := m0.cfg, day := m0.day, sec := m0.sec, run := 1
+           count := totalEvents (m0 :: rest) }
 
 /-- `dclab.cli.join(paths_in, path_out)`; `none` = `ValueError` (fewer than two inputs) -/
 def join (ms : List Meas) : Option Joined :=
   if ms.length < 2 then none else joinSorted (sortInputs ms)
 
-/-- total number of events of the inputs -/
-def totalEvents (ms : List Meas) : Nat := (ms.map (fun m => (m.col .index).length)).sum
+/-- `export.hdf5(logs=True, tables=True)` without `meta_prefix`: logs and tables of the source are
+kept under `src_<name>` -/
+def exportPrefixed (l : List (String × List String)) : List (String × List String) :=
+  l.map (fun nl => ("src_" ++ nl.1, nl.2))
 
-/-- part `i` of `split x s` as a measurement (same metadata, rows of window `i`) -/
+/-- part `i` of `split x s` as a measurement (same metadata except the sample name, rows of
+window `i`, source logs and tables under `src_<name>`) -/
 def partOf (x : Meas) (N s i : Nat) : Meas :=
-  { x with tag := i, col := fun f => sel (x.col f) (window N s i) }
+  { x with tag := i, col := fun f => sel (x.col f) (window N s i),
+           logs := exportPrefixed x.logs, tables := exportPrefixed x.tables }
 
 def splitMeas (x : Meas) (N s : Nat) : List Meas :=
   (List.range (numFiles N s)).map (partOf x N s)
+
+/-! ### split when a part becomes empty
+
+`split` exports the parts one after the other to `<stem>_%04d.rtdc~`; only after the last export
+are the command log / sample name added and the temporaries renamed.  The export of a part without
+any event raises `ValueError("Empty data object …")` after the temporary of that part has been
+created: nothing is renamed and the temporaries of the parts `1 … k+1` stay behind. -/
+
+/-- index of the first empty part -/
+def firstEmpty : List (List Nat) → Option Nat
+  | [] => none
+  | p :: r => if p.isEmpty then some 0 else (firstEmpty r).map (· + 1)
+
+inductive SplitOutcome where
+  | ok (parts : List (List Nat))      -- final files `1 … parts.length`, no temporary left
+  | error (temps : Nat)               -- `ValueError`; no final file, `temps` temporaries left
+deriving DecidableEq, Repr
+
+def splitRun (N s : Nat) (z0 zN : Bool) : SplitOutcome :=
+  match firstEmpty (splitSkip N s z0 zN) with
+  | none => .ok (splitSkip N s z0 zN)
+  | some k => .error (k + 1)
 
 /-! ## B  crash-safety automaton (C10) -/
 
